@@ -214,6 +214,7 @@ func (l *Listener) Backlog() int {
 type Conn struct {
 	ID  int
 	obs Observer
+	wd  time.Time // write deadline (zero: none)
 
 	mu        sync.Mutex
 	cond      *sync.Cond
@@ -325,6 +326,11 @@ func (c *Conn) Write(b []byte) (int, error) {
 		c.obs.Event("conn.write", c, "peer-closed", 0)
 		return 0, errors.New("fakenet: broken pipe")
 	}
+	if !c.wd.IsZero() && !time.Now().Before(c.wd) {
+		// like the net package: a write after the write deadline fails, nothing goes out
+		c.obs.Event("conn.write", c, "timeout", 0)
+		return 0, ErrTimeout
+	}
 	c.out = append(c.out, append([]byte(nil), b...))
 	c.obs.Event("conn.write", c, "ok", len(b))
 	return len(b), nil
@@ -355,10 +361,21 @@ func (c *Conn) SetReadDeadline(t time.Time) error {
 	return nil
 }
 
-func (c *Conn) SetDeadline(t time.Time) error      { return c.SetReadDeadline(t) }
-func (c *Conn) SetWriteDeadline(t time.Time) error { return nil }
-func (c *Conn) LocalAddr() net.Addr                { return Addr("fake-server") }
-func (c *Conn) RemoteAddr() net.Addr               { return Addr("fake-client") }
+func (c *Conn) SetDeadline(t time.Time) error {
+	c.SetWriteDeadline(t)
+	return c.SetReadDeadline(t)
+}
+
+// SetWriteDeadline: writes never block here, so a deadline matters only once it has passed -- every later Write fails
+// with a timeout (event conn.write "timeout"), as on a real connection.
+func (c *Conn) SetWriteDeadline(t time.Time) error {
+	c.mu.Lock()
+	c.wd = t
+	c.mu.Unlock()
+	return nil
+}
+func (c *Conn) LocalAddr() net.Addr  { return Addr("fake-server") }
+func (c *Conn) RemoteAddr() net.Addr { return Addr("fake-client") }
 
 // State is a snapshot for projections.
 type ConnState struct {
@@ -392,6 +409,7 @@ type Reply struct {
 type PacketConn struct {
 	ID  int
 	obs Observer
+	wd  time.Time // write deadline (zero: none)
 
 	mu     sync.Mutex
 	cond   *sync.Cond
@@ -485,6 +503,10 @@ func (p *PacketConn) WriteTo(b []byte, addr net.Addr) (int, error) {
 		p.obs.Event("pc.write", p, "closed", 0)
 		return 0, ErrClosed
 	}
+	if !p.wd.IsZero() && !time.Now().Before(p.wd) {
+		p.obs.Event("pc.write", p, "timeout", 0)
+		return 0, ErrTimeout
+	}
 	p.out = append(p.out, Reply{append([]byte(nil), b...), addr})
 	p.obs.Event("pc.write", p, "ok", len(b))
 	return len(b), nil
@@ -516,9 +538,19 @@ func (p *PacketConn) SetReadDeadline(t time.Time) error {
 	return nil
 }
 
-func (p *PacketConn) SetDeadline(t time.Time) error      { return p.SetReadDeadline(t) }
-func (p *PacketConn) SetWriteDeadline(t time.Time) error { return nil }
-func (p *PacketConn) LocalAddr() net.Addr                { return Addr("fake-packetconn") }
+func (p *PacketConn) SetDeadline(t time.Time) error {
+	p.SetWriteDeadline(t)
+	return p.SetReadDeadline(t)
+}
+
+// SetWriteDeadline: see Conn.SetWriteDeadline (event pc.write "timeout").
+func (p *PacketConn) SetWriteDeadline(t time.Time) error {
+	p.mu.Lock()
+	p.wd = t
+	p.mu.Unlock()
+	return nil
+}
+func (p *PacketConn) LocalAddr() net.Addr { return Addr("fake-packetconn") }
 
 type PacketConnState struct {
 	Closed   bool
